@@ -1548,7 +1548,7 @@ class C02(fw.Check):
         if uninst:
             self.diverge('Spec.call (Lean) vs the call semantics of the harness: instantiable?', witness, info.get('why'), 'ok')
             return
-        _, mrun, mdask, mpf, mpf2, mvin, mwf, mam, mproc, mactors = m
+        _, mrun, mdask, mpf, mpf2, mvin, mwf, mam, mproc, mactors, mexec = m
         actors = {a[0]: ('actor', a[1], tuple((pnames()[n], hyper_py(v)) for n, v in a[2])) for a in mactors}
         info['actors'] = actors
 
@@ -1645,6 +1645,25 @@ class C02(fw.Check):
             else:
                 if o['status'] == 'ok' or ERRMAP.get(o.get('error'), o.get('error')) != mpf[1]:
                     self.diverge('pyfunc outcome', witness, [o.get('stage'), o.get('error', 'ok')], mpf)
+        # which instructions a request executes: the instrumented evaluator `evalT` (Lemmas/C02PyOnce.lean) vs the
+        # invocations the real expression made (both requests of `pyfunc-call`); on apply-mode tables the model must
+        # satisfy `C02_pyfunc_once_full` (every functor / getter once per request, no loader)
+        if o is not None and info['valid'] and info['pyfunc'] and mpf[0] == 'ok' and isinstance(mexec, list) and mexec[0] == 'ok':
+            need = sorted(k for k, ins in by.items() if ins[0] in ('functor', 'getter'))
+            for which, tr in (('first', mexec[1]), ('second', mexec[2])):
+                if sorted(kk[1] for kk in tr) != need:
+                    self.diverge(f'model: the {which} pyfunc request does not execute every functor / getter exactly once '
+                                 '(C02_pyfunc_once_full)', witness, need, tr)
+            if mexec[3] != 'true':
+                self.diverge('model: the replica cells of one fork wrap different terms (hypothesis `cellsOk` of '
+                             'C02_pyfunc_executes_all)', witness, 'true', mexec[3])
+            if o['status'] == 'ok':
+                want = collections.Counter(tuple(by[kk[1]][1:3]) for tr in mexec[1:3] for kk in tr if by[kk[1]][0] == 'functor')
+                have = collections.Counter((r[1], r[2]) for r in o['records'] if r[0] == 'call')
+                if want != have:
+                    self.diverge('pyfunc: actor invocations of two requests (real expression) vs `Term.executed` (Lean)', witness,
+                                 sorted(have.items(), key=repr)[:6], sorted(want.items(), key=repr)[:6])
+                self.outcomes[('model', 'pyfunc executions compared')] += 1
         # the two spec twins: Lean valueIn vs the Python oracle with input
         if info['valid'] and info['pyfunc'] and mvin != 'none':
             orc = Oracle(spec, info['head'], R.Term(*R.INPUT))
